@@ -81,6 +81,41 @@ func (c *Code) newChild(name, source, funcID string) *Code {
 	return child
 }
 
+// codeMark records how far a code object and its symbol table have grown.
+type codeMark struct {
+	instructions int
+	constants    int
+	names        int
+	children     int
+	symbols      int
+	tables       int
+	source       string
+}
+
+// mark returns the current extent of this code object, for use with rollback.
+func (c *Code) mark() codeMark {
+	return codeMark{
+		instructions: len(c.instructions),
+		constants:    len(c.constants),
+		names:        len(c.names),
+		children:     len(c.children),
+		symbols:      len(c.symbols.symbols),
+		tables:       len(c.symbols.children),
+		source:       c.source,
+	}
+}
+
+// rollback removes everything that was added to this code object and to its
+// symbol table since the given mark was taken.
+func (c *Code) rollback(m codeMark) {
+	c.instructions = c.instructions[:m.instructions]
+	c.constants = c.constants[:m.constants]
+	c.names = c.names[:m.names]
+	c.children = c.children[:m.children]
+	c.symbols.truncate(m.symbols, m.tables)
+	c.source = m.source
+}
+
 func (c *Code) InstructionCount() int {
 	return len(c.instructions)
 }
